@@ -211,6 +211,11 @@ def e2e_case(rng):
     # (multiplied branches too: the copies of an annotated anchor carry the anchor's annotation)
     ast = G.random_ast(rng, n_nodes, max_depth=1, p_branch=rng.choice([0.2, 0.5]), p_bond=0.0, p_mult_node=0.3, p_mult_branch=rng.choice([0.0, 0.6]), names=names,
                        p_annot=0.6, annot_fn=lambda r: A.random_annotation(r, 'base'), max_mult=4)
+    virtual_node = rng.random() < 0.3
+    if virtual_node:
+        # a fragment-less node joined by an order-0 edge: its annotations stay on it like on any base-graph node
+        t_, attrs_ = A.random_annotation(rng, 'base', p_reserved=0.8)
+        ast.append(G.el('VX', annot=t_, attrs=attrs_, bond=0))
     nodes, edges = G.denote(ast)
     feats = G.features(ast)
     uses = {}
@@ -220,7 +225,7 @@ def e2e_case(rng):
     from .. import oracles
     via = rng.choice([None, None, 'read', 'rebuilt'])
     return dict(kind='e2e', via_graph=via, string=string, base_expect=[oracles.expected_attrs(nd) for nd in nodes], atom_expect=expect_atoms,
-                features=sorted({'e2e', 'reuse_%d' % min(max(uses.values()), 8)} | ({'node_mult'} if 'node_mult' in feats else set()) | ({'branch_mult'} if G.has_multiplier(ast) and 'node_mult' not in feats else set()) | ({'explicit_annotated_hydrogen'} if has_h else set()) | ({'annotated_single_atom_fragment'} if single_atom else set()) | ({'base_graph_via_from_graph'} if via else set())),
+                features=sorted({'e2e', 'reuse_%d' % min(max(uses.values()), 8)} | ({'node_mult'} if 'node_mult' in feats else set()) | ({'branch_mult'} if G.has_multiplier(ast) and 'node_mult' not in feats else set()) | ({'explicit_annotated_hydrogen'} if has_h else set()) | ({'annotated_single_atom_fragment'} if single_atom else set()) | ({'base_graph_via_from_graph'} if via else set()) | ({'annotated_fragment_less_node'} if virtual_node else set())),
                 reuse=max(uses.values()))
 
 
